@@ -143,6 +143,7 @@ func (its *WiredDatatype) checkOptionAndError(ppp *model.PushPullPack) errors.Or
 		}
 		its.ResetWired()
 		its.ResetSnapshot()
+		its.id = ppp.DUID // the rollback point taken below must carry the subscribed datatype's DUID
 		its.ResetTransaction()
 		its.checkPoint.Cseq = ppp.CheckPoint.Cseq
 		its.checkPoint.Sseq = ppp.CheckPoint.Sseq - uint64(len(ppp.Operations))
